@@ -106,6 +106,12 @@ def ops_full(doc):
             for val in VALUES:
                 ops.append(("set", pi, f.name, val))
             ops.append(("del", pi, f.name))
+        if not par:
+            # a paragraph that lost all its fields: it can only be given fields again
+            for val in VALUES:
+                ops.append(("set", pi, "N", val))
+            ops.append(("del", pi, "Zz-absent"))
+            continue
         ops.append(("set", pi, par[0].name.swapcase(), "y"))
         ops.append(("del", pi, par[-1].name.swapcase()))
         # the field-name token as key (obtained once per history, re-used afterwards)
